@@ -62,6 +62,30 @@ mod bridge {
         pub ts: u32,
         pub marker: bool,
         pub ext: Option<Ext>,
+        /// a raw (possibly malformed) extension block instead of `ext`
+        pub raw: Option<(u16, Vec<u8>)>,
+    }
+    impl In {
+        pub fn block(&self) -> Option<(u16, Vec<u8>)> { self.raw.clone().or_else(|| ext_block(&self.ext)) }
+    }
+    /// SRTP situation of a target transport
+    #[derive(Clone, Copy, Debug, PartialEq)]
+    pub enum TMode { Plain, Srtp, NeedSrtp }
+    #[derive(Clone, Debug)]
+    pub enum BOp {
+        Set(Cfg),
+        Clear,
+        StartSrtp(bool),
+        /// arriving packet; `false` = it is made to fail the source's SRTP unprotect (corrupted
+        /// authentication tag) or, on a plain source, the RTP parser (version 1)
+        Pkt(In, bool),
+    }
+    #[derive(Clone, Debug)]
+    pub struct Scen {
+        pub src_srtp: bool,
+        pub main: TMode,
+        pub video: TMode,
+        pub ops: Vec<BOp>,
     }
     #[derive(Clone, Debug, PartialEq)]
     pub struct Out {
@@ -71,9 +95,12 @@ mod bridge {
         pub seq: u16,
         pub ts: u32,
         pub marker: bool,
-        pub ext: Option<(u16, Vec<(u8, Vec<u8>)>)>,
+        pub ext: Option<(u16, Vec<u8>)>,
         pub payload_ok: bool,
     }
+    /// what was seen for one arriving packet
+    #[derive(Clone, Debug, PartialEq)]
+    pub enum Seen { Fwd(Out), Listener, Nothing, Garbage(String) }
 
     fn parse_wire(video: bool, d: &[u8], payload: &[u8]) -> Option<Out> {
         if d.len() < 12 || d[0] >> 6 != 2 || d[0] & 0x2f != 0 {
@@ -86,30 +113,9 @@ mod bridge {
             let n = u16::from_be_bytes([d[off + 2], d[off + 3]]) as usize * 4;
             off += 4;
             if d.len() < off + n { return None; }
-            let b = &d[off..off + n];
+            let b = d[off..off + n].to_vec();
             off += n;
-            let mut els = vec![];
-            let mut i = 0;
-            while i < b.len() {
-                if b[i] == 0 { i += 1; continue; }
-                if prof == 0xBEDE {
-                    let id = b[i] >> 4;
-                    let len = (b[i] & 0x0f) as usize + 1;
-                    i += 1;
-                    if id == 15 || i + len > b.len() { return None; }
-                    els.push((id, b[i..i + len].to_vec()));
-                    i += len;
-                } else {
-                    if i + 1 >= b.len() { return None; }
-                    let id = b[i];
-                    let len = b[i + 1] as usize;
-                    i += 2;
-                    if i + len > b.len() { return None; }
-                    els.push((id, b[i..i + len].to_vec()));
-                    i += len;
-                }
-            }
-            Some((prof, els))
+            Some((prof, b))
         } else {
             None
         };
@@ -125,9 +131,34 @@ mod bridge {
         })
     }
 
+    /// first one-byte element with this id (oracle side, well-formed blocks only)
+    fn find_one_byte(b: &[u8], id: u8) -> Option<Vec<u8>> {
+        let mut i = 0;
+        while i < b.len() {
+            if b[i] == 0 { i += 1; continue; }
+            let eid = b[i] >> 4;
+            let len = (b[i] & 0x0f) as usize + 1;
+            i += 1;
+            if eid == 15 || i + len > b.len() { return None; }
+            if eid == id { return Some(b[i..i + len].to_vec()); }
+            i += len;
+        }
+        None
+    }
+
+    pub const K_IN: ([u8; 16], [u8; 14]) = ([1, 2, 3, 4, 5, 6, 7, 8, 9, 10, 11, 12, 13, 14, 15, 16], [21, 22, 23, 24, 25, 26, 27, 28, 29, 30, 31, 32, 33, 34]);
+    pub const K_MAIN: ([u8; 16], [u8; 14]) = ([41; 16], [42; 14]);
+    pub const K_VIDEO: ([u8; 16], [u8; 14]) = ([51; 16], [52; 14]);
+    fn km(k: &([u8; 16], [u8; 14])) -> rustrtc::SrtpKeyingMaterial { rustrtc::SrtpKeyingMaterial::new(k.0.to_vec(), k.1.to_vec()) }
+    fn wctx(k: &([u8; 16], [u8; 14])) -> webrtc_srtp::context::Context {
+        webrtc_srtp::context::Context::new(&k.0, &k.1, webrtc_srtp::protection_profile::ProtectionProfile::Aes128CmHmacSha1_80, None, None).unwrap()
+    }
+
+    /// loopback sockets: the targets send from `dst_*` (tokio sockets inside IceConn) to the sinks
+    /// (plain non-blocking std sockets: a loopback datagram is queued during the sender's sendto)
     pub struct Net {
-        sink_main: UdpSocket,
-        sink_video: UdpSocket,
+        sink_main: std::net::UdpSocket,
+        sink_video: std::net::UdpSocket,
         dst_main: Arc<UdpSocket>,
         dst_video: Arc<UdpSocket>,
     }
@@ -135,14 +166,28 @@ mod bridge {
     impl Net {
         pub async fn new() -> Net {
             let n = Net {
-                sink_main: UdpSocket::bind("127.0.0.1:0").await.unwrap(),
-                sink_video: UdpSocket::bind("127.0.0.1:0").await.unwrap(),
+                sink_main: std::net::UdpSocket::bind("127.0.0.1:0").unwrap(),
+                sink_video: std::net::UdpSocket::bind("127.0.0.1:0").unwrap(),
                 dst_main: Arc::new(UdpSocket::bind("127.0.0.1:0").await.unwrap()),
                 dst_video: Arc::new(UdpSocket::bind("127.0.0.1:0").await.unwrap()),
             };
+            n.sink_main.set_nonblocking(true).unwrap();
+            n.sink_video.set_nonblocking(true).unwrap();
             n.dst_main.writable().await.unwrap();
             n.dst_video.writable().await.unwrap();
             n
+        }
+        /// every datagram waiting at the sinks: (video?, bytes)
+        fn drain(&self) -> Vec<(bool, Vec<u8>)> {
+            let mut v = vec![];
+            let mut b = [0u8; 2048];
+            for attempt in 0..2 {
+                while let Ok((n, _)) = self.sink_main.recv_from(&mut b) { v.push((false, b[..n].to_vec())); }
+                while let Ok((n, _)) = self.sink_video.recv_from(&mut b) { v.push((true, b[..n].to_vec())); }
+                if !v.is_empty() || attempt == 1 { break; }
+                std::thread::sleep(std::time::Duration::from_micros(300));
+            }
+            v
         }
     }
 
@@ -153,72 +198,134 @@ mod bridge {
         format!("mkRule {} {} {} {} {} {}", opt(&r.m_pt), opt(&r.fixed), r.off, opt(&r.out_pt), opt(&r.mid_id),
             opt_term(r.mid.as_ref().map(|m| bytes_term(m.as_bytes()))))
     }
-    fn ext_term(e: &Option<(u16, Vec<(u8, Vec<u8>)>)>) -> String {
-        match e { Some((p, els)) => format!("(Some ({}, {}))", p, elems_term(els)), None => "None".into() }
-    }
-    fn in_ext(e: &Option<Ext>) -> Option<(u16, Vec<(u8, Vec<u8>)>)> {
-        e.as_ref().map(|e| (if e.two_byte { 0x1000 } else { 0xBEDE }, e.elems.clone()))
-    }
     fn cfg_term(c: &Cfg) -> String {
         format!("mkBridge (mkOpts {} (Some {}) (Some {}) {}) {} {} {} []", bool_term(c.strip), c.init_seq, c.init_off, opt(&c.init_out_ts),
             list_term(&c.rules.iter().map(rule_term).collect::<Vec<_>>()), bytes_term(&c.video_pts), bool_term(c.has_video))
     }
     fn in_term(i: &In) -> String {
-        format!("mkBin (mkBPkt {} {} {} {} {} {}) 0 0", i.ssrc, i.pt, i.seq, i.ts, bool_term(i.marker), ext_term(&in_ext(&i.ext)))
+        format!("mkBin (mkBPkt {} {} {} {} {} {}) 0 0", i.ssrc, i.pt, i.seq, i.ts, bool_term(i.marker), block_term(&i.block()))
     }
-    fn out_term(o: &Option<Out>) -> String {
+    fn mode_term(m: TMode) -> &'static str { match m { TMode::Plain => "TPlain", TMode::Srtp => "TSrtp", TMode::NeedSrtp => "TNeedSrtp" } }
+    fn bop_term(o: &BOp) -> String {
         match o {
-            Some(o) => format!("(Some ({}, mkBPkt {} {} {} {} {} {}))", bool_term(o.video), o.ssrc, o.pt, o.seq, o.ts, bool_term(o.marker), ext_term(&o.ext)),
-            None => "None".into(),
+            BOp::Set(c) => format!("BSet ({})", cfg_term(c)),
+            BOp::Clear => "BClear".into(),
+            BOp::StartSrtp(v) => format!("BStartSrtp {}", bool_term(*v)),
+            BOp::Pkt(i, a) => format!("BPkt ({}) {}", in_term(i), bool_term(*a)),
+        }
+    }
+    fn seen_term(o: &Seen) -> String {
+        match o {
+            Seen::Fwd(o) => format!("WFwd {} (mkBPkt {} {} {} {} {} {})", bool_term(o.video), o.ssrc, o.pt, o.seq, o.ts, bool_term(o.marker), block_term(&o.ext)),
+            Seen::Listener => "WListener".into(),
+            Seen::Nothing => "WNone".into(),
+            // something arrived that is not what any model outcome looks like: make the comparison fail
+            Seen::Garbage(_) => "WFwd false (mkBPkt (-1) 0 0 0 false None)".into(),
         }
     }
 
-    async fn run_impl(net: &Net, c: &Cfg, ins: &[In]) -> (Vec<Option<Out>>, Option<String>) {
+    fn install(src: &RtpTransport, main: &Arc<RtpTransport>, video: &Arc<RtpTransport>, c: &Cfg) {
+        if let Some((off, fixed, pt, dtmf)) = c.legacy {
+            src.bridge_rewrite_to(main.clone(), RtpRewriteBridgeParams {
+                ssrc_offset: off, fixed_out_ssrc: fixed, payload_type: pt, dtmf_payload_type: dtmf,
+                initial_sequence_number: Some(c.init_seq), initial_timestamp_offset: Some(c.init_off), strip_extensions: c.strip });
+        } else {
+            let rules: Vec<RtpRewriteRule> = c.rules.iter().map(|r| RtpRewriteRule {
+                match_payload_type: r.m_pt, fixed_out_ssrc: r.fixed, ssrc_offset: r.off, out_payload_type: r.out_pt,
+                sdes_mid_extension_id: r.mid_id, sdes_mid: r.mid.clone() }).collect();
+            let opts = RtpRewriteBridgeOptions { strip_extensions: c.strip, initial_sequence_number: Some(c.init_seq),
+                initial_timestamp_offset: Some(c.init_off), initial_output_timestamp: c.init_out_ts };
+            src.bridge_rewrite_rules_to_with_video(main.clone(), if c.has_video { Some(video.clone()) } else { None },
+                c.video_pts.iter().copied().collect::<HashSet<u8>>(), opts, rules);
+        }
+    }
+
+    /// payload of the k-th arriving packet
+    fn payload_of(k: usize) -> [u8; 7] { [k as u8, 0xAB, (k >> 8) as u8, 0xCD, 1, 2, 3] }
+
+    async fn run_impl(net: &Net, sc: &Scen) -> (Vec<Seen>, Option<String>) {
         use futures::FutureExt;
         use std::panic::AssertUnwindSafe as Aus;
         let mut panicked: Option<String> = None;
+        net.drain();
+        let prof = rustrtc::SrtpProfile::Aes128Sha1_80;
         let (_tx0, rx0) = watch::channel(None::<IceSocketWrapper>);
         let src = RtpTransport::new(IceConn::new(rx0, "127.0.0.1:9".parse().unwrap(), None), false);
+        if sc.src_srtp {
+            // the source decrypts with K_IN (its own sending key is irrelevant here)
+            src.start_srtp(rustrtc::SrtpSession::new(prof, km(&K_MAIN), km(&K_IN)).unwrap());
+        }
+        let (ltx, mut lrx) = mpsc::channel::<(RtpPacket, SocketAddr)>(64);
+        src.register_provisional_listener(ltx);
         let (_tx1, rx1) = watch::channel(Some(IceSocketWrapper::Udp(net.dst_main.clone())));
-        let main = Arc::new(RtpTransport::new(IceConn::new(rx1, net.sink_main.local_addr().unwrap(), None), false));
+        let main = Arc::new(RtpTransport::new(IceConn::new(rx1, net.sink_main.local_addr().unwrap(), None), sc.main == TMode::NeedSrtp));
         let (_tx2, rx2) = watch::channel(Some(IceSocketWrapper::Udp(net.dst_video.clone())));
-        let video = Arc::new(RtpTransport::new(IceConn::new(rx2, net.sink_video.local_addr().unwrap(), None), false));
-        let install = catch(Aus(|| {
-            if let Some((off, fixed, pt, dtmf)) = c.legacy {
-                src.bridge_rewrite_to(main.clone(), RtpRewriteBridgeParams {
-                    ssrc_offset: off, fixed_out_ssrc: fixed, payload_type: pt, dtmf_payload_type: dtmf,
-                    initial_sequence_number: Some(c.init_seq), initial_timestamp_offset: Some(c.init_off), strip_extensions: c.strip });
-            } else {
-                let rules: Vec<RtpRewriteRule> = c.rules.iter().map(|r| RtpRewriteRule {
-                    match_payload_type: r.m_pt, fixed_out_ssrc: r.fixed, ssrc_offset: r.off, out_payload_type: r.out_pt,
-                    sdes_mid_extension_id: r.mid_id, sdes_mid: r.mid.clone() }).collect();
-                let opts = RtpRewriteBridgeOptions { strip_extensions: c.strip, initial_sequence_number: Some(c.init_seq),
-                    initial_timestamp_offset: Some(c.init_off), initial_output_timestamp: c.init_out_ts };
-                src.bridge_rewrite_rules_to_with_video(main.clone(), if c.has_video { Some(video.clone()) } else { None },
-                    c.video_pts.iter().copied().collect::<HashSet<u8>>(), opts, rules);
-            }
-        }));
-        if let Err(m) = install { panicked = Some(format!("installing the bridge panicked: {}", m)); }
+        let video = Arc::new(RtpTransport::new(IceConn::new(rx2, net.sink_video.local_addr().unwrap(), None), sc.video == TMode::NeedSrtp));
+        if sc.main == TMode::Srtp { main.start_srtp(rustrtc::SrtpSession::new(prof, km(&K_MAIN), km(&K_IN)).unwrap()); }
+        if sc.video == TMode::Srtp { video.start_srtp(rustrtc::SrtpSession::new(prof, km(&K_VIDEO), km(&K_IN)).unwrap()); }
+        let mut modes = (sc.main, sc.video);
+        // reference SRTP contexts: the sender feeding the source, the receivers behind the targets
+        let mut w_in = wctx(&K_IN);
+        let mut w_main = wctx(&K_MAIN);
+        let mut w_video = wctx(&K_VIDEO);
         let from: SocketAddr = "127.0.0.1:5000".parse().unwrap();
         let mut buf = Vec::with_capacity(1500);
-        let mut outs = vec![];
-        let mut rb = [0u8; 2048];
-        let mut rb2 = [0u8; 2048];
-        for (k, i) in ins.iter().enumerate() {
-            let payload = [k as u8, 0xAB, (k >> 8) as u8, 0xCD, 1, 2, 3];
-            let wire = build_rtp(i.ssrc, i.pt, i.seq, i.ts, i.marker, &i.ext, &payload);
-            if let Err(e) = Aus(src.receive(Bytes::from(wire), from, &mut buf)).catch_unwind().await {
-                panicked.get_or_insert(format!("packet {}: receive (rewrite bridge) panicked: {}", k, panic_msg(e)));
-            }
-            let got = tokio::time::timeout(std::time::Duration::from_millis(500), async {
-                tokio::select! {
-                    r = net.sink_main.recv_from(&mut rb) => r.ok().map(|(n, _)| (false, rb[..n].to_vec())),
-                    r = net.sink_video.recv_from(&mut rb2) => r.ok().map(|(n, _)| (true, rb2[..n].to_vec())),
+        let mut seen = vec![];
+        let mut k = 0usize;
+        for op in &sc.ops {
+            match op {
+                BOp::Set(c) => {
+                    if let Err(m) = catch(Aus(|| install(&src, &main, &video, c))) { panicked.get_or_insert(format!("installing the bridge panicked: {}", m)); }
                 }
-            }).await;
-            outs.push(match got { Ok(Some((v, d))) => parse_wire(v, &d, &payload), _ => None });
+                BOp::Clear => {
+                    if let Err(m) = catch(Aus(|| src.clear_bridge_rewrite())) { panicked.get_or_insert(format!("clear_bridge_rewrite panicked: {}", m)); }
+                }
+                BOp::StartSrtp(v) => {
+                    let (t, key) = if *v { (&video, &K_VIDEO) } else { (&main, &K_MAIN) };
+                    if let Err(m) = catch(Aus(|| t.start_srtp(rustrtc::SrtpSession::new(prof, km(key), km(&K_IN)).unwrap()))) {
+                        panicked.get_or_insert(format!("start_srtp panicked: {}", m));
+                    }
+                    if *v { modes.1 = TMode::Srtp; w_video = wctx(&K_VIDEO); } else { modes.0 = TMode::Srtp; w_main = wctx(&K_MAIN); }
+                }
+                BOp::Pkt(i, auth) => {
+                    let payload = payload_of(k);
+                    k += 1;
+                    let mut wire = build_rtp_raw(i.ssrc, i.pt, i.seq, i.ts, i.marker, &i.block(), &payload);
+                    if sc.src_srtp {
+                        wire = match catch(Aus(|| w_in.encrypt_rtp(&wire).map(|b| b.to_vec()).map_err(|e| e.to_string()))) {
+                            Ok(Ok(b)) => b,
+                            Ok(Err(e)) | Err(e) => { seen.push(Seen::Garbage(format!("reference SRTP sender refused the input: {}", e))); continue; }
+                        };
+                        if !*auth { let n = wire.len(); wire[n - 1] ^= 0x5a; }
+                    } else if !*auth {
+                        wire[0] = (wire[0] & 0x3f) | 0x40;      // RTP version 1: does not parse
+                    }
+                    if let Err(e) = Aus(src.receive(Bytes::from(wire), from, &mut buf)).catch_unwind().await {
+                        panicked.get_or_insert(format!("packet {}: receive (rewrite bridge) panicked: {}", k - 1, panic_msg(e)));
+                    }
+                    let got = net.drain();
+                    let at_listener = lrx.try_recv().ok();
+                    seen.push(if got.len() > 1 || (got.len() == 1 && at_listener.is_some()) {
+                        Seen::Garbage(format!("{} datagrams forwarded and listener delivery {} for one arriving packet", got.len(), at_listener.is_some()))
+                    } else if let Some((v, d)) = got.into_iter().next() {
+                        let mode = if v { modes.1 } else { modes.0 };
+                        let plain = if mode == TMode::Srtp {
+                            // reference unprotect on the target's peer socket
+                            let w = if v { &mut w_video } else { &mut w_main };
+                            match catch(Aus(|| w.decrypt_rtp(&d).map(|b| b.to_vec()).map_err(|e| e.to_string()))) {
+                                Ok(Ok(b)) => Some(b),
+                                Ok(Err(e)) | Err(e) => { seen.push(Seen::Garbage(format!("reference SRTP receiver refused the forwarded packet: {}", e))); continue; }
+                            }
+                        } else { Some(d) };
+                        match plain.and_then(|pl| parse_wire(v, &pl, &payload)) { Some(o) => Seen::Fwd(o), None => Seen::Garbage("forwarded datagram is not RTP".into()) }
+                    } else if let Some((pk, _)) = at_listener {
+                        if pk.header.ssrc == i.ssrc && pk.header.sequence_number == i.seq && pk.header.timestamp == i.ts { Seen::Listener }
+                        else { Seen::Garbage("the listener got a packet that is not the one sent".into()) }
+                    } else { Seen::Nothing });
+                }
+            }
         }
-        (outs, panicked)
+        (seen, panicked)
     }
 
     // -------------------------------------------------------------------------- direct oracle
@@ -227,55 +334,90 @@ mod bridge {
     // arrival order (mod 2^16) starting at the configured seed; timestamps keep the source
     // difference between consecutive arrivals unless the arrival is a forward jump beyond 900000
     // ticks from the newest (non-backward) earlier arrival, where the output advances by exactly
-    // 3000 from that arrival's output; all of it per source, whatever is interleaved.
-    fn oracle(c: &Cfg, ins: &[In], outs: &[Option<Out>]) -> Option<String> {
-        struct S { out_ssrc: u32, next_seq: u16, prev_in: u32, prev_out: u32, anchor_in: u32, anchor_out: u32 }
+    // 3000 from that arrival's output; all of it per source, whatever is interleaved.  A packet that
+    // fails authentication is never forwarded and disturbs nothing; without a bridge nothing is
+    // forwarded; a target that requires SRTP and has no session forwards nothing in clear.
+    fn oracle(sc: &Scen, seen: &[Seen]) -> Option<String> {
+        struct S { out_ssrc: u32, next_seq: u16, prev_in: u32, prev_out: u32, anchor_in: u32, anchor_out: u32, ts_known: bool }
         let mut st: HashMap<u32, S> = HashMap::new();
-        for (k, (i, o)) in ins.iter().zip(outs.iter()).enumerate() {
-            let Some(o) = o else { return Some(format!("packet {}: nothing (or an unparseable datagram) was forwarded", k)); };
-            if !o.payload_ok { return Some(format!("packet {}: payload altered", k)); }
+        let mut swallowed: BTreeSet<u32> = BTreeSet::new();   // sources with packets dropped at an SRTP-less target since the install
+        let mut cfg: Option<&Cfg> = None;
+        let mut modes = (sc.main, sc.video);
+        let mut k = 0usize;
+        for op in &sc.ops {
+            let (i, auth) = match op {
+                BOp::Set(c) => { cfg = Some(c); st.clear(); swallowed.clear(); continue; }
+                BOp::Clear => { cfg = None; st.clear(); swallowed.clear(); continue; }
+                BOp::StartSrtp(v) => { if *v { modes.1 = TMode::Srtp } else { modes.0 = TMode::Srtp }; continue; }
+                BOp::Pkt(i, a) => (i, *a),
+            };
+            let o = &seen[k];
+            k += 1;
+            if let Seen::Garbage(m) = o { return Some(format!("packet {}: {}", k - 1, m)); }
+            if !auth {
+                if *o != Seen::Nothing { return Some(format!("packet {}: failed authentication / parsing but was not dropped: {:?}", k - 1, o)); }
+                continue;
+            }
+            let Some(c) = cfg else {
+                if *o != Seen::Listener { return Some(format!("packet {}: no bridge installed, the packet belongs to the listeners, saw {:?}", k - 1, o)); }
+                continue;
+            };
             let want_video = c.has_video && c.video_pts.contains(&i.pt);
-            if o.video != want_video { return Some(format!("packet {}: forwarded to the {} target", k, if o.video { "video" } else { "main" })); }
+            let mode = if want_video { modes.1 } else { modes.0 };
+            if mode == TMode::NeedSrtp {
+                if *o != Seen::Nothing { return Some(format!("packet {}: the target requires SRTP and has no session, yet something was forwarded / delivered: {:?}", k - 1, o)); }
+                swallowed.insert(i.ssrc);
+                st.remove(&i.ssrc);
+                continue;
+            }
+            let Seen::Fwd(o) = o else { return Some(format!("packet {}: nothing was forwarded ({:?})", k - 1, o)); };
+            if !o.payload_ok { return Some(format!("packet {}: payload altered", k - 1)); }
+            if o.video != want_video { return Some(format!("packet {}: forwarded to the {} target", k - 1, if o.video { "video" } else { "main" })); }
             let rule = c.rules.iter().find(|r| r.m_pt == Some(i.pt)).or_else(|| c.rules.iter().find(|r| r.m_pt.is_none()));
             let want_pt = rule.and_then(|r| r.out_pt).unwrap_or(i.pt) & 0x7f;
-            if o.pt != want_pt { return Some(format!("packet {}: payload type {} but the matched rule says {}", k, o.pt, want_pt)); }
+            if o.pt != want_pt { return Some(format!("packet {}: payload type {} but the matched rule says {}", k - 1, o.pt, want_pt)); }
             match st.get_mut(&i.ssrc) {
                 None => {
-                    let want_ssrc = match rule { Some(r) => r.fixed.unwrap_or(i.ssrc.wrapping_add(r.off)), None => i.ssrc };
-                    if o.ssrc != want_ssrc { return Some(format!("packet {}: first output SSRC {} but the rule gives {}", k, o.ssrc, want_ssrc)); }
-                    if o.seq != c.init_seq { return Some(format!("packet {}: first sequence number {} is not the configured {}", k, o.seq, c.init_seq)); }
-                    let want_ts = c.init_out_ts.unwrap_or(i.ts.wrapping_add(c.init_off));
-                    if o.ts != want_ts { return Some(format!("packet {}: first timestamp {} expected {}", k, o.ts, want_ts)); }
-                    st.insert(i.ssrc, S { out_ssrc: o.ssrc, next_seq: o.seq.wrapping_add(1), prev_in: i.ts, prev_out: o.ts, anchor_in: i.ts, anchor_out: o.ts });
+                    if !swallowed.contains(&i.ssrc) {
+                        let want_ssrc = match rule { Some(r) => r.fixed.unwrap_or(i.ssrc.wrapping_add(r.off)), None => i.ssrc };
+                        if o.ssrc != want_ssrc { return Some(format!("packet {}: first output SSRC {} but the rule gives {}", k - 1, o.ssrc, want_ssrc)); }
+                        if o.seq != c.init_seq { return Some(format!("packet {}: first sequence number {} is not the configured {}", k - 1, o.seq, c.init_seq)); }
+                        let want_ts = c.init_out_ts.unwrap_or(i.ts.wrapping_add(c.init_off));
+                        if o.ts != want_ts { return Some(format!("packet {}: first timestamp {} expected {}", k - 1, o.ts, want_ts)); }
+                    }
+                    st.insert(i.ssrc, S { out_ssrc: o.ssrc, next_seq: o.seq.wrapping_add(1), prev_in: i.ts, prev_out: o.ts, anchor_in: i.ts, anchor_out: o.ts,
+                        ts_known: !swallowed.contains(&i.ssrc) });
                 }
                 Some(s) => {
-                    if o.ssrc != s.out_ssrc { return Some(format!("packet {}: output SSRC changed from {} to {} within source {}", k, s.out_ssrc, o.ssrc, i.ssrc)); }
-                    if o.seq != s.next_seq { return Some(format!("packet {}: sequence number {} is not consecutive (expected {})", k, o.seq, s.next_seq)); }
+                    if o.ssrc != s.out_ssrc { return Some(format!("packet {}: output SSRC changed from {} to {} within source {}", k - 1, s.out_ssrc, o.ssrc, i.ssrc)); }
+                    if o.seq != s.next_seq { return Some(format!("packet {}: sequence number {} is not consecutive (expected {})", k - 1, o.seq, s.next_seq)); }
                     s.next_seq = s.next_seq.wrapping_add(1);
-                    let d = i.ts.wrapping_sub(s.anchor_in);
-                    if d < 0x8000_0000 && d > 900_000 {
-                        if o.ts != s.anchor_out.wrapping_add(3000) {
-                            return Some(format!("packet {}: discontinuity (+{} ticks) must advance the output by 3000 from {}, got {}", k, d, s.anchor_out, o.ts));
+                    if s.ts_known {
+                        let d = i.ts.wrapping_sub(s.anchor_in);
+                        if d < 0x8000_0000 && d > 900_000 {
+                            if o.ts != s.anchor_out.wrapping_add(3000) {
+                                return Some(format!("packet {}: discontinuity (+{} ticks) must advance the output by 3000 from {}, got {}", k - 1, d, s.anchor_out, o.ts));
+                            }
+                        } else if o.ts.wrapping_sub(s.prev_out) != i.ts.wrapping_sub(s.prev_in) {
+                            return Some(format!("packet {}: output timestamp difference {} differs from source difference {}", k - 1,
+                                o.ts.wrapping_sub(s.prev_out), i.ts.wrapping_sub(s.prev_in)));
                         }
-                    } else if o.ts.wrapping_sub(s.prev_out) != i.ts.wrapping_sub(s.prev_in) {
-                        return Some(format!("packet {}: output timestamp difference {} differs from source difference {}", k,
-                            o.ts.wrapping_sub(s.prev_out), i.ts.wrapping_sub(s.prev_in)));
+                        if d < 0x8000_0000 { s.anchor_in = i.ts; s.anchor_out = o.ts; }
                     }
-                    if d < 0x8000_0000 { s.anchor_in = i.ts; s.anchor_out = o.ts; }
                     s.prev_in = i.ts;
                     s.prev_out = o.ts;
                 }
             }
             // extensions: stripped, or MID stamped for the matched rule
             if c.strip {
-                if o.ext.is_some() { return Some(format!("packet {}: extensions not stripped", k)); }
+                if o.ext.is_some() { return Some(format!("packet {}: extensions not stripped", k - 1)); }
             } else if let Some(r) = rule {
                 if let (Some(id), Some(mid)) = (r.mid_id, &r.mid) {
                     let legal = (1..15).contains(&id) && (1..=16).contains(&mid.len());
-                    let bede = i.ext.as_ref().map(|e| !e.two_byte).unwrap_or(true);
+                    let bede = i.raw.is_none() && i.ext.as_ref().map(|e| !e.two_byte).unwrap_or(true);
                     if legal && bede {
-                        let got = o.ext.as_ref().and_then(|(_, els)| els.iter().find(|(x, _)| *x == id).map(|(_, d)| d.clone()));
-                        if got.as_deref() != Some(mid.as_bytes()) { return Some(format!("packet {}: MID extension {} not stamped with {:?}", k, id, mid)); }
+                        let got = o.ext.as_ref().filter(|(p, _)| *p == 0xBEDE).and_then(|(_, b)| find_one_byte(b, id));
+                        if got.as_deref() != Some(mid.as_bytes()) { return Some(format!("packet {}: MID extension {} not stamped with {:?}", k - 1, id, mid)); }
                     }
                 }
             }
@@ -362,13 +504,14 @@ mod bridge {
                     Some(Ext { two_byte: true, elems: vec![(id, r.bytes(len))] })
                 }
             };
-            out.push(In { ssrc: ssrcs[s], pt: *r.pick(&[0u8, 0, 98, 99, 101, 127, 8]), seq: r.next() as u16, ts: ts[s], marker: r.chance(1, 5), ext });
+            let raw = if r.chance(1, 10) { Some(gen_raw_block(r, &[1, 3, 14])) } else { None };
+            out.push(In { ssrc: ssrcs[s], pt: *r.pick(&[0u8, 0, 98, 99, 101, 127, 8]), seq: r.next() as u16, ts: ts[s], marker: r.chance(1, 5), ext, raw });
         }
         out
     }
 
     fn corpus() -> Vec<(Cfg, Vec<In>)> {
-        let p = |ssrc: u32, pt: u8, ts: u32| In { ssrc, pt, seq: 7, ts, marker: false, ext: None };
+        let p = |ssrc: u32, pt: u8, ts: u32| In { ssrc, pt, seq: 7, ts, marker: false, ext: None, raw: None };
         let base = Cfg { strip: false, init_seq: 65535, init_off: 0xFFFF_FED8, init_out_ts: None,
             rules: vec![Rule { m_pt: None, fixed: Some(111), off: 0, out_pt: Some(96), mid_id: None, mid: None },
                         Rule { m_pt: Some(98), fixed: Some(222), off: 0, out_pt: Some(102), mid_id: Some(3), mid: Some("1".into()) }],
@@ -402,9 +545,12 @@ mod bridge {
             (base.clone(), vec![p(1, 0, 0xFFFF_FF60), p(1, 0, 0), p(1, 0, 160), p(1, 0, 160u32.wrapping_sub(1_000_000)), p(1, 0, 320), p(1, 0, 480)]),
             // MID stamping into an existing one-byte block (replace and append), two-byte block untouched
             (base.clone(), vec![
-                In { ssrc: 9, pt: 98, seq: 1, ts: 0, marker: true, ext: Some(Ext { two_byte: false, elems: vec![(3, b"zz".to_vec()), (2, vec![1, 2, 3])] }) },
-                In { ssrc: 9, pt: 98, seq: 2, ts: 160, marker: false, ext: Some(Ext { two_byte: false, elems: vec![(2, vec![9])] }) },
-                In { ssrc: 9, pt: 98, seq: 3, ts: 320, marker: false, ext: Some(Ext { two_byte: true, elems: vec![(3, vec![9])] }) }]),
+                In { ssrc: 9, pt: 98, seq: 1, ts: 0, marker: true, ext: Some(Ext { two_byte: false, elems: vec![(3, b"zz".to_vec()), (2, vec![1, 2, 3])] }), raw: None },
+                In { ssrc: 9, pt: 98, seq: 2, ts: 160, marker: false, ext: Some(Ext { two_byte: false, elems: vec![(2, vec![9])] }), raw: None },
+                In { ssrc: 9, pt: 98, seq: 3, ts: 320, marker: false, ext: Some(Ext { two_byte: true, elems: vec![(3, vec![9])] }), raw: None },
+                // malformed one-byte block in front of the stamp: truncated element (set_extension treats it as the end)
+                In { ssrc: 9, pt: 98, seq: 4, ts: 480, marker: false, ext: None, raw: Some((0xBEDE, vec![0x21, 1, 2, 0x3F])) },
+                In { ssrc: 9, pt: 98, seq: 5, ts: 640, marker: false, ext: None, raw: Some((0xBEDE, vec![0xF0, 0x30, b'x', 0])) }]),
         ]
     }
 
@@ -432,7 +578,7 @@ mod bridge {
             let s = if two && r.chance(1, 3) { 1 } else { 0 };
             ts[s] = ts[s].wrapping_add(160);
             let pt = if s == 1 { 0 } else if k % 2 == 1 || r.chance(1, 4) { *r.pick(&[101u8, 101, 8]) } else { 0 };
-            ins.push(In { ssrc: 4000 + s as u32, pt, seq: k as u16, ts: ts[s], marker: pt == 101 && r.chance(1, 3), ext: None });
+            ins.push(In { ssrc: 4000 + s as u32, pt, seq: k as u16, ts: ts[s], marker: pt == 101 && r.chance(1, 3), ext: None, raw: None });
         }
         (c, ins)
     }
@@ -450,7 +596,7 @@ mod bridge {
         let mut ins = vec![];
         let mut ts = start;
         let mut seq = 0u16;
-        let mut push = |ins: &mut Vec<In>, ssrc: u32, ts: u32| { ins.push(In { ssrc, pt: 0, seq, ts, marker: false, ext: None }); seq = seq.wrapping_add(1); };
+        let mut push = |ins: &mut Vec<In>, ssrc: u32, ts: u32| { ins.push(In { ssrc, pt: 0, seq, ts, marker: false, ext: None, raw: None }); seq = seq.wrapping_add(1); };
         for _ in 0..r.range(1, 3) { push(&mut ins, 6000, ts); ts = ts.wrapping_add(160); }
         let newest = ts.wrapping_sub(160);
         if r.chance(1, 3) { push(&mut ins, 6001, 42); }
@@ -460,51 +606,156 @@ mod bridge {
         (c, ins)
     }
 
+    fn plain(c: Cfg, ins: Vec<In>) -> Scen {
+        let mut ops = vec![BOp::Set(c)];
+        ops.extend(ins.into_iter().map(|i| BOp::Pkt(i, true)));
+        Scen { src_srtp: false, main: TMode::Plain, video: TMode::Plain, ops }
+    }
+
+    /// monotone input sequence numbers per source (the reference SRTP sender and the source's SRTP
+    /// receiver must agree on the rollover counter) and extension blocks the reference parser accepts
+    fn srtp_friendly(ins: &mut [In]) {
+        let mut next: HashMap<u32, u16> = HashMap::new();
+        for i in ins.iter_mut() {
+            let n = next.entry(i.ssrc).or_insert(i.seq);
+            i.seq = *n;
+            *n = n.wrapping_add(1);
+            i.raw = None;
+            if i.ext.as_ref().map(|e| e.two_byte).unwrap_or(false) { i.ext = None; }
+        }
+    }
+
+    /// SRTP on the source and / or the targets, targets that still wait for their session,
+    /// packets that fail authentication in between
+    fn gen_srtp(r: &mut Rng, stats: &mut BTreeMap<String, u64>) -> Scen {
+        let mut c = gen_cfg(r);
+        // one output SSRC per source: sources merged onto one fixed output SSRC each run their own
+        // sequence counter, which an SRTP receiver of that SSRC cannot follow (notes/C19.md, observation)
+        for ru in c.rules.iter_mut() { ru.fixed = None; }
+        if let Some(l) = c.legacy.as_mut() { l.1 = None; }
+        let n0 = r.range(3, 12) as usize;
+        let mut ins = gen_ins(r, n0, stats);
+        srtp_friendly(&mut ins);
+        let src_srtp = r.chance(2, 3);
+        let mode = |r: &mut Rng| *r.pick(&[TMode::Plain, TMode::Srtp, TMode::Srtp, TMode::NeedSrtp]);
+        let (main, video) = (mode(r), mode(r));
+        let mut ops = vec![BOp::Set(c)];
+        let n = ins.len();
+        let start_main = r.below(n as u64 + 1) as usize;
+        let start_video = r.below(n as u64 + 1) as usize;
+        for (k, i) in ins.into_iter().enumerate() {
+            if k == start_main && main == TMode::NeedSrtp { ops.push(BOp::StartSrtp(false)); }
+            if k == start_video && video == TMode::NeedSrtp { ops.push(BOp::StartSrtp(true)); }
+            if r.chance(1, 6) {
+                // a forged copy first: it must vanish without a trace
+                ops.push(BOp::Pkt(i.clone(), false));
+            }
+            ops.push(BOp::Pkt(i, true));
+        }
+        Scen { src_srtp, main, video, ops }
+    }
+
+    /// bridge installed, cleared, installed again (same or other rule table) while the same source
+    /// streams keep arriving
+    fn gen_reinstall(r: &mut Rng, stats: &mut BTreeMap<String, u64>) -> Scen {
+        let n0 = r.range(6, 16) as usize;
+        let mut ins = gen_ins(r, n0, stats);
+        let src_srtp = r.chance(1, 4);
+        // the targets stay plain here: a re-installed bridge restarts the output sequence numbers, which an
+        // SRTP receiver of the same SSRC cannot follow (notes/C19.md, observation)
+        let main_mode = TMode::Plain;
+        if src_srtp { srtp_friendly(&mut ins); }
+        let c1 = gen_cfg(r);
+        let c2 = if r.chance(1, 2) { c1.clone() } else { gen_cfg(r) };
+        let mut ops = vec![];
+        if r.chance(3, 4) { ops.push(BOp::Set(c1.clone())); }
+        let n = ins.len();
+        let cut1 = r.range(1, n as u64 - 2) as usize;
+        let cut2 = r.range(cut1 as u64, n as u64 - 1) as usize;
+        for (k, i) in ins.into_iter().enumerate() {
+            if k == cut1 { ops.push(if r.chance(1, 2) { BOp::Clear } else { BOp::Set(c2.clone()) }); }
+            if k == cut2 && cut2 > cut1 { ops.push(if r.chance(1, 3) { BOp::Clear } else { BOp::Set(if r.chance(1, 2) { c1.clone() } else { c2.clone() }) }); }
+            ops.push(BOp::Pkt(i, !r.chance(1, 12)));
+        }
+        Scen { src_srtp, main: main_mode, video: TMode::Plain, ops }
+    }
+
+    fn scen_corpus() -> Vec<Scen> {
+        let p = |ssrc: u32, pt: u8, seq: u16, ts: u32| BOp::Pkt(In { ssrc, pt, seq, ts, marker: false, ext: None, raw: None }, true);
+        let bad = |ssrc: u32, pt: u8, seq: u16, ts: u32| BOp::Pkt(In { ssrc, pt, seq, ts, marker: false, ext: None, raw: None }, false);
+        let c = Cfg { strip: false, init_seq: 65534, init_off: 1000, init_out_ts: None,
+            rules: vec![Rule { m_pt: None, fixed: Some(111), off: 0, out_pt: Some(96), mid_id: Some(3), mid: Some("0".into()) },
+                        Rule { m_pt: Some(98), fixed: Some(222), off: 0, out_pt: Some(102), mid_id: None, mid: None }],
+            video_pts: vec![98], has_video: true, legacy: None };
+        vec![
+            // SRTP in, SRTP out on both targets; a forged packet in the middle leaves no trace
+            Scen { src_srtp: true, main: TMode::Srtp, video: TMode::Srtp, ops: vec![BOp::Set(c.clone()),
+                p(1, 0, 10, 0), p(2, 98, 500, 0), bad(1, 0, 11, 160), p(1, 0, 11, 160), p(2, 98, 501, 3000), p(1, 0, 12, 320)] },
+            // the main target waits for its SRTP session: packets are rewritten and swallowed, the counter moves on
+            Scen { src_srtp: false, main: TMode::NeedSrtp, video: TMode::Plain, ops: vec![BOp::Set(c.clone()),
+                p(1, 0, 10, 0), p(1, 0, 11, 160), p(2, 98, 1, 0), BOp::StartSrtp(false), p(1, 0, 12, 320), p(1, 0, 13, 480)] },
+            // re-installing the same rule table resets every stream; clearing hands packets to the listeners
+            Scen { src_srtp: false, main: TMode::Plain, video: TMode::Plain, ops: vec![p(1, 0, 1, 0), BOp::Set(c.clone()),
+                p(1, 0, 2, 160), p(1, 0, 3, 320), BOp::Set(c.clone()), p(1, 0, 4, 480), p(1, 0, 5, 640), BOp::Clear, p(1, 0, 6, 800),
+                BOp::Set(c.clone()), p(1, 0, 7, 960)] },
+        ]
+    }
+
     pub async fn run(args: &Args, r: &mut Rng, out: &mut super::Out) -> serde_json::Value {
         let net = Net::new().await;
         let thorough = args.tier == "thorough";
         let mut stats: BTreeMap<String, u64> = BTreeMap::new();
-        let mut all: Vec<(String, Cfg, Vec<In>)> = corpus().into_iter().map(|(c, i)| ("corpus".to_string(), c, i)).collect();
-        let n = if thorough { 12000 } else { 2000 };
+        let mut all: Vec<(String, Scen)> = corpus().into_iter().map(|(c, i)| ("corpus".to_string(), plain(c, i))).collect();
+        for sc in scen_corpus() { all.push(("corpus".into(), sc)); }
+        let n = if thorough { 12000 } else { 1600 };
         for _ in 0..n {
             let c = gen_cfg(r);
             let len = if thorough { r.range(2, 30) } else { r.range(2, 14) } as usize;
             let ins = gen_ins(r, len, &mut stats);
-            all.push(("random".into(), c, ins));
+            all.push(("random".into(), plain(c, ins)));
         }
         for _ in 0..(if thorough { 1500 } else { 300 }) {
             let (c, ins) = gen_pt_switch(r);
-            all.push(("pt-switch".into(), c, ins));
+            all.push(("pt-switch".into(), plain(c, ins)));
         }
         for _ in 0..(if thorough { 1500 } else { 300 }) {
             let (c, ins) = gen_straggler(r);
-            all.push(("straggler".into(), c, ins));
+            all.push(("straggler".into(), plain(c, ins)));
+        }
+        for _ in 0..(if thorough { 3000 } else { 500 }) {
+            all.push(("srtp".into(), gen_srtp(r, &mut stats)));
+        }
+        for _ in 0..(if thorough { 3000 } else { 500 }) {
+            all.push(("reinstall".into(), gen_reinstall(r, &mut stats)));
         }
         // sequence-number wrap-around over a long single stream
         let c = Cfg { strip: false, init_seq: 65000, init_off: 0, init_out_ts: None, rules: vec![], video_pts: vec![], has_video: false, legacy: None };
-        all.push(("long".into(), c, (0..700u32).map(|k| In { ssrc: 77, pt: 0, seq: k as u16, ts: k * 160, marker: false, ext: None }).collect()));
-        let mut rebases = 0u64;
+        all.push(("long".into(), plain(c, (0..700u32).map(|k| In { ssrc: 77, pt: 0, seq: k as u16, ts: k * 160, marker: false, ext: None, raw: None }).collect())));
         let mut pkts = 0u64;
-        for (kind, c, ins) in all {
-            let (outs, panicked) = run_impl(&net, &c, &ins).await;
-            let fail = panicked.or_else(|| oracle(&c, &ins, &outs));
-            pkts += ins.len() as u64;
-            let term = format!("BridgeCase ({}) {} {}", cfg_term(&c), list_term(&ins.iter().map(in_term).collect::<Vec<_>>()),
-                list_term(&outs.iter().map(out_term).collect::<Vec<_>>()));
-            let multi = ins.iter().map(|i| i.ssrc).collect::<BTreeSet<_>>().len() > 1;
-            if ins.windows(2).any(|w| w[0].ssrc == w[1].ssrc && { let d = w[1].ts.wrapping_sub(w[0].ts); d > 900_000 && d < 0x8000_0000 }) { rebases += 1; }
+        let mut kinds: BTreeMap<String, u64> = BTreeMap::new();
+        for (kind, sc) in all {
+            let (seen, panicked) = run_impl(&net, &sc).await;
+            let fail = panicked.or_else(|| oracle(&sc, &seen));
+            for o in &seen {
+                pkts += 1;
+                *kinds.entry(match o { Seen::Fwd(_) => "forwarded", Seen::Listener => "to_listener", Seen::Nothing => "nothing", Seen::Garbage(_) => "garbage" }.into()).or_default() += 1;
+            }
+            let term = format!("BridgeCase {} {} {} {}", mode_term(sc.main), mode_term(sc.video),
+                list_term(&sc.ops.iter().map(bop_term).collect::<Vec<_>>()), list_term(&seen.iter().map(seen_term).collect::<Vec<_>>()));
+            let npk = sc.ops.iter().filter(|o| matches!(o, BOp::Pkt(..))).count();
             out.push(Case {
                 term,
-                desc: json!({"part": "bridge", "cfg": format!("{:?}", c), "ins": ins.iter().map(|i| json!([i.ssrc, i.pt, i.seq, i.ts, i.marker, format!("{:?}", i.ext)])).collect::<Vec<_>>(),
-                    "impl_out": outs.iter().map(|o| format!("{:?}", o)).collect::<Vec<_>>() }),
+                desc: json!({"part": "bridge", "source_srtp": sc.src_srtp, "main_target": format!("{:?}", sc.main), "video_target": format!("{:?}", sc.video),
+                    "ops": sc.ops.iter().map(|o| format!("{:?}", o)).collect::<Vec<_>>(),
+                    "seen": seen.iter().map(|o| format!("{:?}", o)).collect::<Vec<_>>() }),
                 oracle_fail: fail,
                 known: None,
-                nontrivial: ins.len() >= 2 && (multi || !c.rules.is_empty()),
-                key: format!("{:?}|{:?}", c, ins),
+                nontrivial: npk >= 2,
+                key: format!("{:?}", sc),
                 kind: format!("bridge-{}", kind),
             });
         }
-        json!({"timestamp_steps": stats, "packets": pkts, "cases_with_discontinuity": rebases})
+        json!({"timestamp_steps": stats, "packets": pkts, "packet_outcomes": kinds})
     }
 }
 
@@ -516,33 +767,71 @@ pub struct Ext {
     pub elems: Vec<(u8, Vec<u8>)>,
 }
 
-/// RTP packet built byte by byte (independently of rustrtc's marshaller)
-pub fn build_rtp(ssrc: u32, pt: u8, seq: u16, ts: u32, marker: bool, ext: &Option<Ext>, payload: &[u8]) -> Vec<u8> {
-    let mut p = vec![0x80u8 | if ext.is_some() { 0x10 } else { 0 }, (pt & 0x7f) | if marker { 0x80 } else { 0 }];
+/// the extension block (profile, data padded to 32 bits) of an element list
+pub fn ext_block(ext: &Option<Ext>) -> Option<(u16, Vec<u8>)> {
+    let e = ext.as_ref()?;
+    let mut d = vec![];
+    for (id, data) in &e.elems {
+        if e.two_byte {
+            d.push(*id);
+            d.push(data.len() as u8);
+        } else {
+            assert!((1..=14).contains(id) && (1..=16).contains(&data.len()));
+            d.push((id << 4) | (data.len() as u8 - 1));
+        }
+        d.extend_from_slice(data);
+    }
+    while d.len() % 4 != 0 {
+        d.push(0);
+    }
+    Some((if e.two_byte { 0x1000u16 } else { 0xBEDE }, d))
+}
+
+/// RTP packet built byte by byte (independently of rustrtc's marshaller); `block` = raw extension
+/// block (profile, data; data length must be a multiple of 4)
+pub fn build_rtp_raw(ssrc: u32, pt: u8, seq: u16, ts: u32, marker: bool, block: &Option<(u16, Vec<u8>)>, payload: &[u8]) -> Vec<u8> {
+    let mut p = vec![0x80u8 | if block.is_some() { 0x10 } else { 0 }, (pt & 0x7f) | if marker { 0x80 } else { 0 }];
     p.extend_from_slice(&seq.to_be_bytes());
     p.extend_from_slice(&ts.to_be_bytes());
     p.extend_from_slice(&ssrc.to_be_bytes());
-    if let Some(e) = ext {
-        let mut d = vec![];
-        for (id, data) in &e.elems {
-            if e.two_byte {
-                d.push(*id);
-                d.push(data.len() as u8);
-            } else {
-                assert!((1..=14).contains(id) && (1..=16).contains(&data.len()));
-                d.push((id << 4) | (data.len() as u8 - 1));
-            }
-            d.extend_from_slice(data);
-        }
-        while d.len() % 4 != 0 {
-            d.push(0);
-        }
-        p.extend_from_slice(&(if e.two_byte { 0x1000u16 } else { 0xBEDE }).to_be_bytes());
+    if let Some((prof, d)) = block {
+        assert!(d.len() % 4 == 0);
+        p.extend_from_slice(&prof.to_be_bytes());
         p.extend_from_slice(&((d.len() / 4) as u16).to_be_bytes());
-        p.extend_from_slice(&d);
+        p.extend_from_slice(d);
     }
     p.extend_from_slice(payload);
     p
+}
+
+pub fn block_term(b: &Option<(u16, Vec<u8>)>) -> String {
+    match b { Some((p, d)) => format!("(Some ({}, {}))", p, bytes_term(d)), None => "None".into() }
+}
+
+/// malformed / unusual extension blocks: truncated elements, padding in the middle, the id-15
+/// terminator, over-long length nibbles, unknown profiles, two-byte length overruns
+pub fn gen_raw_block(r: &mut Rng, ids: &[u8]) -> (u16, Vec<u8>) {
+    let id = *r.pick(ids);
+    let id1 = if (1..=14).contains(&id) { id } else { 1 };
+    let key = r.pick(&[b"a".as_slice(), b"0", b"hi", b"v"]).to_vec();
+    let el = |id: u8, d: &[u8]| { let mut v = vec![(id << 4) | (d.len() as u8 - 1)]; v.extend_from_slice(d); v };
+    let (prof, mut d): (u16, Vec<u8>) = match r.below(9) {
+        0 => { let mut v = vec![0, 0]; v.extend(el(id1, &key)); (0xBEDE, v) }                      // leading padding
+        1 => { let mut v = el(2, &[7]); v.push(0); v.extend(el(id1, &key)); (0xBEDE, v) }            // padding between elements
+        2 => { let mut v = vec![0xF0]; v.extend(el(id1, &key)); (0xBEDE, v) }                        // id 15 stops the scan
+        3 => { let mut v = el(3, &[1, 2]); v.push((id1 << 4) | 0x0F); v.extend_from_slice(&key); (0xBEDE, v) } // length nibble overruns the block
+        4 => (0xBEDE, vec![(id1 << 4) | 3, key[0]]),                                                 // truncated element
+        5 => (*r.pick(&[0x1234u16, 0xBEDF, 0x1001, 0]), el(id1, &key)),                             // unknown profile
+        6 => { let mut v = vec![id, 200]; v.extend_from_slice(&key); (0x1000, v) }                   // two-byte: length overruns
+        7 => { let mut v = vec![0, id, key.len() as u8]; v.extend_from_slice(&key); v.push(id); (0x1000, v) } // two-byte: dangling id at the end
+        _ => { let mut v = el(id1, &key); v.extend(el(id1, b"zz")); (0xBEDE, v) }                    // same id twice
+    };
+    while d.len() % 4 != 0 { d.push(0); }
+    (prof, d)
+}
+
+pub fn build_rtp(ssrc: u32, pt: u8, seq: u16, ts: u32, marker: bool, ext: &Option<Ext>, payload: &[u8]) -> Vec<u8> {
+    build_rtp_raw(ssrc, pt, seq, ts, marker, &ext_block(ext), payload)
 }
 
 pub fn elems_term(elems: &[(u8, Vec<u8>)]) -> String {
@@ -555,6 +844,11 @@ struct Pkt {
     ssrc: u32,
     pt: u8,
     ext: Option<Ext>,
+    /// a raw (possibly malformed) extension block instead of `ext`
+    raw: Option<(u16, Vec<u8>)>,
+}
+impl Pkt {
+    fn block(&self) -> Option<(u16, Vec<u8>)> { self.raw.clone().or_else(|| ext_block(&self.ext)) }
 }
 
 #[derive(Clone, Debug)]
@@ -570,6 +864,7 @@ enum Op {
     Close(usize),
     Clear,
     Probe(u32),
+    Drain(usize),
     Recv(Pkt),
 }
 
@@ -590,12 +885,8 @@ fn op_term(o: &Op) -> String {
         Op::Close(l) => format!("Close {}", l),
         Op::Clear => "ClearListeners".into(),
         Op::Probe(x) => format!("Probe {}", x),
-        Op::Recv(p) => format!(
-            "Recv (mkPkt {} {} {})",
-            p.ssrc,
-            p.pt,
-            elems_term(p.ext.as_ref().map(|e| e.elems.as_slice()).unwrap_or(&[]))
-        ),
+        Op::Drain(l) => format!("Drain {}", l),
+        Op::Recv(p) => format!("Recv (mkPkt {} {} {})", p.ssrc, p.pt, block_term(&p.block())),
     }
 }
 
@@ -612,7 +903,8 @@ fn op_json(o: &Op) -> serde_json::Value {
         Op::Close(l) => json!({"drop_receiver_of_listener": l}),
         Op::Clear => json!("clear_listeners"),
         Op::Probe(x) => json!({"has_listener": x}),
-        Op::Recv(p) => json!({"recv": {"ssrc": p.ssrc, "pt": p.pt,
+        Op::Drain(l) => json!({"consumer_drains_listener": l}),
+        Op::Recv(p) => json!({"recv": {"ssrc": p.ssrc, "pt": p.pt, "raw_ext_block": p.raw,
             "ext": p.ext.as_ref().map(|e| json!({"two_byte": e.two_byte,
                 "elems": e.elems.iter().map(|(i, d)| json!([i, d])).collect::<Vec<_>>() }))}}),
     }
@@ -632,14 +924,14 @@ struct ImplRun {
     payload_mismatch: Option<String>,
 }
 
-async fn run_impl(ops: &[Op]) -> ImplRun {
+async fn run_impl(cap: usize, ops: &[Op]) -> ImplRun {
     let (_tx, rx) = watch::channel(None::<IceSocketWrapper>);
     let conn = IceConn::new(rx, "127.0.0.1:1234".parse().unwrap(), None);
     let t = RtpTransport::new(conn, false);
     let mut txs = vec![];
     let mut rxs: Vec<Option<mpsc::Receiver<(RtpPacket, SocketAddr)>>> = vec![];
     for _ in 0..NL {
-        let (tx, rx) = mpsc::channel(8);
+        let (tx, rx) = mpsc::channel(cap);
         txs.push(tx);
         rxs.push(Some(rx));
     }
@@ -647,6 +939,7 @@ async fn run_impl(ops: &[Op]) -> ImplRun {
     let mut buf = Vec::new();
     let mut out = ImplRun { obs: vec![], panics: vec![], bound_before: vec![], payload_mismatch: None };
     let mut seq: u16 = 0;
+    let mut sent: Vec<(u32, u8)> = vec![];
     use futures::FutureExt;
     use std::panic::AssertUnwindSafe as Aus;
     for (oi, o) in ops.iter().enumerate() {
@@ -671,26 +964,38 @@ async fn run_impl(ops: &[Op]) -> ImplRun {
                 Ok(b) => out.obs.push((vec![], b)),
                 Err(m) => { out.panics.push((oi, format!("has_listener panicked: {}", m))); out.obs.push((vec![], false)); }
             },
+            Op::Drain(l) => {
+                // the consumer empties its channel: packet tags (= our sequence numbers) in the order received
+                let mut tags = vec![];
+                if let Some(r) = rxs[*l].as_mut() {
+                    while let Ok((pk, a)) = r.try_recv() {
+                        let tag = pk.header.sequence_number as usize;
+                        tags.push(tag);
+                        match sent.get(tag) {
+                            Some((ssrc, pt)) if *ssrc == pk.header.ssrc && (*pt & 0x7f) == pk.header.payload_type && a == from => {}
+                            _ => out.payload_mismatch = Some(format!(
+                                "listener {} received a packet that was never sent like this (ssrc {} pt {} seq {})",
+                                l, pk.header.ssrc, pk.header.payload_type, pk.header.sequence_number)),
+                        }
+                    }
+                }
+                out.obs.push((tags, false));
+            }
             Op::Recv(p) => {
-                seq = seq.wrapping_add(1);
                 out.bound_before.push(catch(Aus(|| t.has_listener(p.ssrc))).unwrap_or(false));
-                let wire = build_rtp(p.ssrc, p.pt, seq, 1000, false, &p.ext, &[seq as u8; 4]);
+                let wire = build_rtp_raw(p.ssrc, p.pt, seq, 1000, false, &p.block(), &[seq as u8; 4]);
+                sent.push((p.ssrc, p.pt));
+                seq = seq.wrapping_add(1);
+                // who received it: the open channels whose free capacity went down (nothing is drained here)
+                let before: Vec<Option<usize>> = (0..NL).map(|i| rxs[i].as_ref().map(|_| txs[i].capacity())).collect();
                 if let Err(e) = Aus(t.receive(Bytes::from(wire), from, &mut buf)).catch_unwind().await {
                     out.panics.push((oi, format!("receive panicked: {}", panic_msg(e))));
                 }
                 let mut got = vec![];
-                for (i, r) in rxs.iter_mut().enumerate() {
-                    if let Some(r) = r {
-                        while let Ok((pk, a)) = r.try_recv() {
-                            got.push(i);
-                            if pk.header.ssrc != p.ssrc || pk.header.payload_type != (p.pt & 0x7f)
-                                || pk.header.sequence_number != seq || a != from
-                            {
-                                out.payload_mismatch = Some(format!(
-                                    "listener {} received a packet that is not the one just sent (ssrc {} pt {} seq {})",
-                                    i, pk.header.ssrc, pk.header.payload_type, pk.header.sequence_number));
-                            }
-                        }
+                for i in 0..NL {
+                    if let Some(b) = before[i] {
+                        let a = txs[i].capacity();
+                        for _ in a..b { got.push(i); }
                     }
                 }
                 out.obs.push((got, catch(Aus(|| t.has_listener(p.ssrc))).unwrap_or(false)));
@@ -723,6 +1028,11 @@ struct Oracle {
     named: BTreeSet<usize>,
     closed: BTreeSet<usize>,
     any_close: bool,
+    /// latest register_mid_listener value per listener (since the last clear)
+    mid_of: HashMap<usize, Vec<u8>>,
+    /// packets delivered to a listener and not yet taken out by its consumer (tags, in order)
+    pending: HashMap<usize, Vec<usize>>,
+    raw_seen: bool,
 }
 
 fn ext_key(id: u8, p: &Pkt) -> Option<Vec<u8>> {
@@ -737,7 +1047,7 @@ fn ext_key(id: u8, p: &Pkt) -> Option<Vec<u8>> {
     if std::str::from_utf8(&d).is_ok() { Some(d) } else { None }
 }
 
-fn oracle(ops: &[Op], run: &ImplRun) -> Option<String> {
+fn oracle(cap: usize, ops: &[Op], run: &ImplRun) -> Option<String> {
     if let Some((i, m)) = run.panics.first() {
         return Some(format!("op {}: {} (a registration / receive call must never panic)", i, m));
     }
@@ -751,7 +1061,7 @@ fn oracle(ops: &[Op], run: &ImplRun) -> Option<String> {
         match op {
             Op::RegSsrc(x, l) => { o.ssrc_owner.insert(*x, *l); o.named.insert(*l); }
             Op::RegRid(k, l) => { o.rid_owner.insert(k.as_bytes().to_vec(), *l); o.named.insert(*l); }
-            Op::RegMid(k, l) => { o.mid_owner.insert(k.as_bytes().to_vec(), *l); o.named.insert(*l); o.pts.entry(*l).or_default(); }
+            Op::RegMid(k, l) => { o.mid_owner.insert(k.as_bytes().to_vec(), *l); o.mid_of.insert(*l, k.as_bytes().to_vec()); o.named.insert(*l); o.pts.entry(*l).or_default(); }
             Op::RegPt(pt, l) => { let v = o.pts.entry(*l).or_default(); if !v.contains(pt) { v.push(*pt); } o.named.insert(*l); }
             Op::RegPtList(pts, l) => { o.pts.insert(*l, pts.clone()); o.named.insert(*l); }
             Op::RegProv(l) => { o.prov.insert(*l); o.named.insert(*l); o.pts.entry(*l).or_default(); }
@@ -760,12 +1070,23 @@ fn oracle(ops: &[Op], run: &ImplRun) -> Option<String> {
             Op::Close(l) => { o.closed.insert(*l); o.any_close = true; }
             Op::Clear => {
                 // "Clear all listeners to stop receiving packets": nobody is registered afterwards
-                o.rid_owner.clear(); o.mid_owner.clear(); o.ssrc_owner.clear(); o.pts.clear(); o.prov.clear(); o.named.clear();
+                o.rid_owner.clear(); o.mid_owner.clear(); o.ssrc_owner.clear(); o.pts.clear(); o.prov.clear(); o.named.clear(); o.mid_of.clear();
             }
             Op::Probe(_) => { oi += 1; }
+            Op::Drain(l) => {
+                let (tags, _) = &run.obs[oi];
+                oi += 1;
+                if !o.closed.contains(l) {
+                    let want = o.pending.remove(l).unwrap_or_default();
+                    if *tags != want {
+                        return Some(format!("op {}: consumer of listener {} found packets {:?} in its channel, but {:?} were delivered to it in this order (lost, duplicated or reordered)", i, l, tags, want));
+                    }
+                }
+            }
             Op::Recv(p) => {
                 let (got, bound_after) = &run.obs[oi];
                 let bound_before = run.bound_before[ri];
+                let tag = ri;
                 oi += 1;
                 ri += 1;
                 if got.len() > 1 {
@@ -775,14 +1096,38 @@ fn oracle(ops: &[Op], run: &ImplRun) -> Option<String> {
                     if !o.named.contains(d) {
                         return Some(format!("op {}: packet delivered to listener {} which is not registered (never registered, or cleared by clear_listeners)", i, d));
                     }
+                    if o.pending.get(d).map(|v| v.len()).unwrap_or(0) >= cap {
+                        return Some(format!("op {}: listener {} already holds {} undelivered packets (capacity {}) and got another one", i, d, cap, cap));
+                    }
+                    o.pending.entry(*d).or_default().push(tag);
+                }
+                if p.raw.is_some() {
+                    // malformed / unusual extension block: what it carries is decided by the byte-level
+                    // parser (model comparison); the oracle keeps to the checks above
+                    if let Some(d) = got.first() { if *bound_after { o.ssrc_owner.insert(p.ssrc, *d); } } else if !*bound_after { o.ssrc_owner.remove(&p.ssrc); }
+                    o.raw_seen = true;
+                    continue;
                 }
                 let rid = ext_key(o.rid_id, p);
                 let mid = ext_key(o.mid_id, p);
                 let rid_own = rid.as_ref().and_then(|k| o.rid_owner.get(k).copied());
                 let mid_own = mid.as_ref().and_then(|k| o.mid_owner.get(k).copied());
+                // "dropped rather than handed to a receiver of another media section"
+                if let (Some(d), Some(m)) = (got.first(), &mid) {
+                    if let Some(md) = o.mid_of.get(d) {
+                        if md != m && rid_own != Some(*d) && mid_own != Some(*d) {
+                            return Some(format!("op {}: the packet names media section {:?} but was handed to listener {} which registered for section {:?} (neither its RID nor its MID selected that listener)", i, String::from_utf8_lossy(m), d, String::from_utf8_lossy(md)));
+                        }
+                    }
+                }
+                let full = |o: &Oracle, l: usize| o.pending.get(&l).map(|v| v.len()).unwrap_or(0) >= cap + if got.first() == Some(&l) { 1 } else { 0 };
+                // what a hit on listener l must look like: delivered unless its channel is full
+                let deliver = |o: &Oracle, l: usize| -> Vec<usize> { if full(o, l) { vec![] } else { vec![l] } };
+                // a non-extension hit on a listener registered for another section is dropped
+                let foreign = |o: &Oracle, l: usize| -> bool { match (&mid, o.mid_of.get(&l)) { (Some(m), Some(md)) => md != m, _ => false } };
                 if let Some(l) = rid_own {
                     if !o.closed.contains(&l) {
-                        if got != &vec![l] {
+                        if got != &deliver(&o, l) {
                             return Some(format!("op {}: RID names open listener {} but the packet went to {:?}", i, l, got));
                         }
                         o.ssrc_owner.insert(p.ssrc, l);
@@ -793,7 +1138,7 @@ fn oracle(ops: &[Op], run: &ImplRun) -> Option<String> {
                 }
                 if let Some(l) = mid_own {
                     if !o.closed.contains(&l) {
-                        if got != &vec![l] {
+                        if got != &deliver(&o, l) {
                             return Some(format!("op {}: MID names open listener {} (a registered media section) but the packet went to {:?}", i, l, got));
                         }
                         o.ssrc_owner.insert(p.ssrc, l);
@@ -806,31 +1151,30 @@ fn oracle(ops: &[Op], run: &ImplRun) -> Option<String> {
                 // provisional catch-all) can route this packet, so whoever gets it must have claimed
                 // the payload type itself or be provisional.  An open listener's own registrations
                 // are never pruned, so this holds with closed listeners around as well.
-                if !bound_before && !o.ssrc_owner.contains_key(&p.ssrc) {
+                if !bound_before && !o.ssrc_owner.contains_key(&p.ssrc) && !o.raw_seen {
                     if let Some(d) = got.first() {
                         let claims = o.pts.get(d).map(|v| v.contains(&(p.pt & 0x7f))).unwrap_or(false);
                         if !claims && !o.prov.contains(d) {
                             return Some(format!("op {}: unbound SSRC {}, no RID/MID: payload type {} was never registered by listener {} (its list: {:?}) and it is not provisional, yet it received the packet (claimed by {:?})",
                                 i, p.ssrc, p.pt, d, o.pts.get(d), o.pts.iter().filter(|(_, v)| v.contains(&(p.pt & 0x7f))).map(|(l, _)| *l).collect::<Vec<_>>()));
                         }
-                        // a claimant that is open and alone among ALL listeners ever named (closed ones
-                        // included) must get it: a closed stranger that does not list the PT cannot make it ambiguous
                     } else {
                         let claim: Vec<usize> = o.pts.iter().filter(|(_, v)| v.contains(&(p.pt & 0x7f))).map(|(l, _)| *l).collect();
-                        if claim.len() == 1 && !o.closed.contains(&claim[0]) && o.any_close {
+                        if claim.len() == 1 && !o.closed.contains(&claim[0]) && o.any_close && !full(&o, claim[0]) && !foreign(&o, claim[0]) {
                             return Some(format!("op {}: payload type {} is claimed by open listener {} only (no closed listener lists it) but the packet was dropped", i, p.pt, claim[0]));
                         }
                     }
                 }
-                if o.any_close {
+                if o.any_close || o.raw_seen {
                     // closed listeners are pruned lazily; which of THEIR registrations are still in force
                     // is not determined by the property text -- only the checks above apply
                     if let Some(d) = got.first() { if *bound_after { o.ssrc_owner.insert(p.ssrc, *d); } }
                     continue;
                 }
                 if let Some(l) = o.ssrc_owner.get(&p.ssrc).copied() {
-                    if got != &vec![l] {
-                        return Some(format!("op {}: SSRC {} is known to belong to listener {} but the packet went to {:?}", i, p.ssrc, l, got));
+                    let want = if foreign(&o, l) { vec![] } else { deliver(&o, l) };
+                    if got != &want {
+                        return Some(format!("op {}: SSRC {} is known to belong to listener {} but the packet went to {:?} (expected {:?})", i, p.ssrc, l, got, want));
                     }
                     continue;
                 }
@@ -839,7 +1183,13 @@ fn oracle(ops: &[Op], run: &ImplRun) -> Option<String> {
                 }
                 let claim: Vec<usize> = o.pts.iter().filter(|(_, v)| v.contains(&(p.pt & 0x7f))).map(|(l, _)| *l).collect();
                 if claim.len() == 1 {
-                    if got != &vec![claim[0]] {
+                    if foreign(&o, claim[0]) {
+                        if !got.is_empty() || *bound_after {
+                            return Some(format!("op {}: payload type {} belongs to listener {} which registered for another section than the packet names: must be dropped unbound, went to {:?}", i, p.pt, claim[0], got));
+                        }
+                        continue;
+                    }
+                    if got != &deliver(&o, claim[0]) {
                         return Some(format!("op {}: payload type {} belongs to listener {} only but the packet went to {:?}", i, p.pt, claim[0], got));
                     }
                     if !*bound_after {
@@ -851,8 +1201,9 @@ fn oracle(ops: &[Op], run: &ImplRun) -> Option<String> {
                 // ambiguous or unknown payload type: only the single provisional listener may get it
                 if o.prov.len() == 1 {
                     let l = *o.prov.iter().next().unwrap();
-                    if got != &vec![l] {
-                        return Some(format!("op {}: only the single provisional listener {} may receive this packet, went to {:?}", i, l, got));
+                    let want = if foreign(&o, l) { vec![] } else { deliver(&o, l) };
+                    if got != &want {
+                        return Some(format!("op {}: only the single provisional listener {} may receive this packet (expected {:?}), went to {:?}", i, l, want, got));
                     }
                 } else if !got.is_empty() {
                     return Some(format!("op {}: payload type {} is claimed by {:?} and there are {} provisional listeners: the packet must be dropped, went to {:?}",
@@ -932,10 +1283,17 @@ fn gen_case(r: &mut Rng, stats: &mut BTreeMap<String, u64>, long: bool) -> Vec<O
             if closes { Op::Close(l) } else { Op::Probe(*r.pick(&ssrcs)) }
         } else if k < 35 + reg_bias {
             Op::Clear
-        } else if k < 40 + reg_bias {
+        } else if k < 38 + reg_bias {
             Op::Probe(*r.pick(&ssrcs))
+        } else if k < 41 + reg_bias {
+            Op::Drain(l)
         } else {
-            Op::Recv(Pkt { ssrc: *r.pick(&ssrcs), pt: *r.pick(&pts), ext: gen_ext(r, rid_id, mid_id, stats) })
+            if r.chance(1, 8) {
+                *stats.entry("pkt_raw_block".into()).or_default() += 1;
+                Op::Recv(Pkt { ssrc: *r.pick(&ssrcs), pt: *r.pick(&pts), ext: None, raw: Some(gen_raw_block(r, &[rid_id, mid_id, 1, 2])) })
+            } else {
+                Op::Recv(Pkt { ssrc: *r.pick(&ssrcs), pt: *r.pick(&pts), ext: gen_ext(r, rid_id, mid_id, stats), raw: None })
+            }
         };
         // after a close, often refresh another listener's route registration on the same sender
         let op = if closes && matches!(ops.last(), Some(Op::Close(_))) && r.chance(1, 2) {
@@ -948,7 +1306,7 @@ fn gen_case(r: &mut Rng, stats: &mut BTreeMap<String, u64>, long: bool) -> Vec<O
         let name = match &op {
             Op::RegSsrc(..) => "reg_ssrc", Op::RegRid(..) => "reg_rid", Op::RegMid(..) => "reg_mid", Op::RegPt(..) => "reg_pt",
             Op::RegPtList(..) => "reg_pt_list", Op::RegProv(..) => "reg_prov", Op::SetRidId(..) => "set_rid_id",
-            Op::SetMidId(..) => "set_mid_id", Op::Close(..) => "close", Op::Clear => "clear", Op::Probe(..) => "probe", Op::Recv(..) => "recv",
+            Op::SetMidId(..) => "set_mid_id", Op::Close(..) => "close", Op::Clear => "clear", Op::Probe(..) => "probe", Op::Drain(..) => "drain", Op::Recv(..) => "recv",
         };
         *stats.entry(name.into()).or_default() += 1;
         ops.push(op);
@@ -961,7 +1319,7 @@ fn mid_ext(id: u8, m: &str) -> Option<Ext> {
 }
 
 fn corpus() -> Vec<Vec<Op>> {
-    let p = |ssrc: u32, pt: u8, ext: Option<Ext>| Op::Recv(Pkt { ssrc, pt, ext });
+    let p = |ssrc: u32, pt: u8, ext: Option<Ext>| Op::Recv(Pkt { ssrc, pt, ext, raw: None });
     vec![
         // specific listener isolation (unit test): second SSRC is dropped, not bound
         vec![Op::RegSsrc(100, 0), p(100, 0, None), p(200, 0, None), Op::Probe(200)],
@@ -994,8 +1352,19 @@ fn corpus() -> Vec<Vec<Op>> {
         vec![Op::RegProv(0), Op::RegPtList(vec![97], 1), Op::Close(0), Op::RegPtList(vec![98], 1), p(41, 98, None), Op::RegMid("b".into(), 1), p(42, 98, None)],
         // clear_listeners: nobody is registered afterwards, also not through the MID map
         vec![Op::SetMidId(1), Op::RegMid("a".into(), 0), Op::Clear, p(9, 96, mid_ext(1, "a")), Op::Probe(9)],
-        // unregistered MID falls through to the unique payload type of another section (documented limit)
-        vec![Op::SetMidId(1), Op::RegMid("a".into(), 0), Op::RegPtList(vec![96], 0), p(9, 96, mid_ext(1, "v"))],
+        // F27 (fixed): a packet naming section "v" is not handed, by payload type / SSRC / provisional, to the
+        // listener registered for section "a"; a listener without any MID still gets it
+        vec![Op::SetMidId(1), Op::RegMid("a".into(), 0), Op::RegPtList(vec![96], 0), p(9, 96, mid_ext(1, "v")), Op::Probe(9),
+             Op::RegSsrc(9, 0), p(9, 96, mid_ext(1, "v")), Op::RegProv(0), p(10, 5, mid_ext(1, "v")), p(10, 5, None),
+             Op::RegPtList(vec![97], 1), p(11, 97, mid_ext(1, "v"))],
+        // malformed extension blocks: truncated MID element, id-15 terminator in front of the MID, padding, unknown profile
+        vec![Op::SetMidId(1), Op::RegMid("a".into(), 0), Op::RegProv(1),
+             Op::Recv(Pkt { ssrc: 1, pt: 0, ext: None, raw: Some((0xBEDE, vec![0x13, b'a', 0, 0])) }),
+             Op::Recv(Pkt { ssrc: 2, pt: 0, ext: None, raw: Some((0xBEDE, vec![0xF0, 0x10, b'a', 0])) }),
+             Op::Recv(Pkt { ssrc: 3, pt: 0, ext: None, raw: Some((0xBEDE, vec![0, 0, 0x10, b'a'])) }),
+             Op::Recv(Pkt { ssrc: 4, pt: 0, ext: None, raw: Some((0x1234, vec![0x10, b'a', 0, 0])) }),
+             Op::Recv(Pkt { ssrc: 5, pt: 0, ext: None, raw: Some((0x1000, vec![1, 9, b'a', 0])) }),
+             Op::Recv(Pkt { ssrc: 6, pt: 0, ext: None, raw: Some((0x1000, vec![1, 1, b'a', 0])) })],
         // invalid UTF-8 in the MID extension is ignored
         vec![Op::SetMidId(1), Op::RegMid("a".into(), 0), Op::RegProv(1), p(9, 96, Some(Ext { two_byte: false, elems: vec![(1, vec![0xff])] }))],
         // two-byte extension form, empty MID value registered
@@ -1011,7 +1380,7 @@ fn corpus() -> Vec<Vec<Op>> {
 /// then packets with unbound SSRCs and no RID/MID probe every payload type involved.  B's refresh
 /// must land on B: a payload type only B lists must not reach C, C's own must still reach C.
 fn stale_route_cases() -> Vec<Vec<Op>> {
-    let p = |ssrc: u32, pt: u8| Op::Recv(Pkt { ssrc, pt, ext: None });
+    let p = |ssrc: u32, pt: u8| Op::Recv(Pkt { ssrc, pt, ext: None, raw: None });
     let (x, b, c) = (0usize, 1usize, 2usize);
     let first: Vec<Box<dyn Fn(usize, u8) -> Vec<Op>>> = vec![
         Box::new(|l, pt| vec![Op::RegPtList(vec![pt], l)]),
@@ -1054,9 +1423,37 @@ fn stale_route_cases() -> Vec<Vec<Op>> {
     v
 }
 
+/// slow consumers: small channel capacities, bursts towards few listeners, the consumer draining
+/// now and then; closes of full channels; selection stages of every kind in front of a full channel
+fn gen_slow_consumer(r: &mut Rng) -> (usize, Vec<Op>) {
+    let cap = *r.pick(&[1usize, 1, 2, 3, 4]);
+    let mut ops = vec![Op::SetMidId(1), Op::RegMid("a".into(), 0), Op::RegPtList(vec![96], 0), Op::RegSsrc(7, 0),
+                       Op::RegMid("v".into(), 1), Op::RegPtList(vec![97], 1)];
+    if r.chance(1, 2) { ops.push(Op::RegProv(2)); }
+    let n = r.range(cap as u64 + 2, 4 * cap as u64 + 10);
+    let mut ssrc = 100u32;
+    for _ in 0..n {
+        let k = r.below(20);
+        ops.push(match k {
+            0..=5 => Op::Recv(Pkt { ssrc: 7, pt: 96, ext: None, raw: None }),                       // SSRC map
+            6..=8 => Op::Recv(Pkt { ssrc: 9, pt: 0, ext: mid_ext(1, "a"), raw: None }),             // MID (binds although full)
+            9..=10 => { ssrc += 1; Op::Recv(Pkt { ssrc, pt: 97, ext: None, raw: None }) }           // unique PT (binds although full)
+            11 => { ssrc += 1; Op::Recv(Pkt { ssrc, pt: 5, ext: None, raw: None }) }                // provisional / nothing
+            12 => Op::Recv(Pkt { ssrc: 7, pt: 96, ext: mid_ext(1, "v"), raw: None }),
+            13..=15 => Op::Drain(r.below(3) as usize),
+            16 => Op::Probe(ssrc),
+            17 => Op::Probe(9),
+            18 => if r.chance(1, 3) { Op::Close(r.below(2) as usize) } else { Op::Drain(0) },
+            _ => Op::Recv(Pkt { ssrc: 7, pt: 97, ext: None, raw: None }),
+        });
+    }
+    ops.push(Op::Drain(0)); ops.push(Op::Drain(1)); ops.push(Op::Drain(2));
+    (cap, ops)
+}
+
 /// exhaustive suffixes over a small alphabet after a fixed two-section prefix
 fn alphabet() -> Vec<Op> {
-    let p = |ssrc: u32, pt: u8, ext: Option<Ext>| Op::Recv(Pkt { ssrc, pt, ext });
+    let p = |ssrc: u32, pt: u8, ext: Option<Ext>| Op::Recv(Pkt { ssrc, pt, ext, raw: None });
     vec![
         p(1, 96, None), p(2, 96, None), p(1, 111, None), p(2, 8, None),
         p(1, 96, mid_ext(1, "a")), p(2, 96, mid_ext(1, "v")), p(1, 96, mid_ext(1, "x")),
@@ -1083,8 +1480,8 @@ async fn main() {
         let mut ops = vec![Op::SetMidId(1), Op::SetRidId(2), Op::RegMid("a".into(), 0), Op::RegPtList(vec![96, 111], 0),
                            Op::RegMid("v".into(), 1), Op::RegPtList(vec![96], 1), Op::RegRid("h".into(), 1)];
         for &i in &idx { ops.push(alpha[i].clone()); }
-        ops.push(Op::Recv(Pkt { ssrc: 1, pt: 96, ext: None }));
-        ops.push(Op::Recv(Pkt { ssrc: 2, pt: 111, ext: None }));
+        ops.push(Op::Recv(Pkt { ssrc: 1, pt: 96, ext: None, raw: None }));
+        ops.push(Op::Recv(Pkt { ssrc: 2, pt: 111, ext: None, raw: None }));
         all.push(("exhaustive".into(), ops));
         let mut k = 0;
         loop {
@@ -1096,23 +1493,34 @@ async fn main() {
         }
         if k == depth { break; }
     }
+    let mut all: Vec<(String, usize, Vec<Op>)> = all.into_iter().map(|(k, ops)| (k, 64usize, ops)).collect();
     let nrand = if thorough { 20000 } else { 2500 };
     for _ in 0..nrand {
-        all.push(("random".into(), gen_case(&mut r, &mut stats, thorough)));
+        let cap = *r.pick(&[1usize, 2, 3, 64, 64, 64]);
+        all.push(("random".into(), cap, gen_case(&mut r, &mut stats, thorough)));
+    }
+    for _ in 0..(if thorough { 2000 } else { 400 }) {
+        let (cap, ops) = gen_slow_consumer(&mut r);
+        all.push(("slow-consumer".into(), cap, ops));
     }
     let mut delivered = 0u64;
     let mut dropped = 0u64;
-    for (kind, ops) in all {
-        let run = run_impl(&ops).await;
-        let fail = oracle(&ops, &run);
-        let nd = run.obs.iter().filter(|o| !o.0.is_empty()).count() as u64;
+    let mut full_drops = 0u64;
+    for (kind, cap, ops) in all {
+        let run = run_impl(cap, &ops).await;
+        let fail = oracle(cap, &ops, &run);
+        let nd = ops.iter().filter(|o| !matches!(o, Op::Drain(_))).count();   // (placeholder, recomputed below)
+        let _ = nd;
+        let mut nd = 0u64;
+        { let mut oi = 0; for o in &ops { match o { Op::Recv(_) => { if !run.obs[oi].0.is_empty() { nd += 1; } oi += 1; } Op::Probe(_) | Op::Drain(_) => oi += 1, _ => {} } } }
         delivered += nd;
         dropped += ops.iter().filter(|o| matches!(o, Op::Recv(_))).count() as u64 - nd;
-        let term = format!("DemuxCase {} {}", list_term(&ops.iter().map(op_term).collect::<Vec<_>>()),
+        if kind == "slow-consumer" { full_drops += ops.iter().filter(|o| matches!(o, Op::Recv(_))).count() as u64 - nd; }
+        let term = format!("DemuxCase {} {} {}", cap, list_term(&ops.iter().map(op_term).collect::<Vec<_>>()),
             list_term(&run.obs.iter().map(|(g, b)| format!("({}, {})", zlist(g.iter().map(|x| *x as i128)), bool_term(*b))).collect::<Vec<_>>()));
         out.push(Case {
             term,
-            desc: json!({"part": "demux", "ops": ops.iter().map(op_json).collect::<Vec<_>>(),
+            desc: json!({"part": "demux", "channel_capacity": cap, "ops": ops.iter().map(op_json).collect::<Vec<_>>(),
                 "impl_obs": run.obs.iter().map(|(g, b)| json!([g, b])).collect::<Vec<_>>() }),
             oracle_fail: fail,
             known: None,
@@ -1122,5 +1530,5 @@ async fn main() {
         });
     }
     let bstats = bridge::run(&args, &mut r, &mut out).await;
-    out.finish(json!({"generator": {"demux_op_kinds": stats, "demux_packets_delivered": delivered, "demux_packets_dropped": dropped, "bridge": bstats}}));
+    out.finish(json!({"generator": {"demux_op_kinds": stats, "demux_packets_delivered": delivered, "demux_packets_dropped": dropped, "slow_consumer_packets_not_delivered": full_drops, "bridge": bstats}}));
 }
